@@ -8,7 +8,8 @@ file content, link targets, xattr values), all derived from the node id, all rep
     materialise(tree, cat, root, probe)  -> list of per-node concretisation records (what was really put on the host, re-read
                                             through lstat / readlink / listxattr after everything was written)
     debugfs_script(tree, conc, root)     -> text of a `debugfs -w -f` script that builds the same tree with
-                                            mkdir / write / symlink / mknod
+                                            mkdir / write / symlink / mknod / ln
+    debugfs_links(tree, conc)            -> the `ln` requests of that script and the closing `sif ... links_count` lines
     listing(root)                        -> structural listing of a host directory (used on the output of debugfs rdump)
     cleanup(root)                        -> unmount what materialise mounted, remove the tree
 """
@@ -28,7 +29,8 @@ def sha(b):
 # ---------------------------------------------------------------------------------------------------- host probe
 def probe_host(d):
     os.makedirs(d, exist_ok=True)
-    res = {"seek_hole": False, "user_xattr": False, "big_xattr": False, "mknod": False, "sock": False, "tmpfs": False, "chown": False}
+    res = {"seek_hole": False, "user_xattr": False, "big_xattr": False, "mknod": False, "sock": False, "tmpfs": False, "chown": False,
+           "link_symlink": False}
     p = os.path.join(d, "probe_sparse")
     try:
         with open(p, "wb") as f:
@@ -69,6 +71,19 @@ def probe_host(d):
         finally:
             if os.path.lexists(q):
                 os.unlink(q)
+    # does link(2) give a symlink itself a second name here (Linux: yes; POSIX leaves it to the implementation)?
+    q, q2 = os.path.join(d, "probe_sl"), os.path.join(d, "probe_sl2")
+    try:
+        os.symlink("nowhere", q)
+        os.link(q, q2, follow_symlinks=False)
+        st = os.lstat(q2)
+        res["link_symlink"] = stat.S_ISLNK(st.st_mode) and st.st_nlink == 2 and st.st_ino == os.lstat(q).st_ino
+    except (OSError, NotImplementedError):
+        pass
+    finally:
+        for x in (q, q2):
+            if os.path.lexists(x):
+                os.unlink(x)
     # two tmpfs mounts number their inodes alike: the only way to get two hard-link groups with equal st_ino on different devices
     m = os.path.join(d, "probe_mnt")
     os.makedirs(m, exist_ok=True)
@@ -165,7 +180,7 @@ def materialise(tree, cat, root, probe):
             elif k == "sock":
                 os.mknod(p, stat.S_IFSOCK | 0o600, 0)       # bind() would limit the path to 107 bytes
             elif k == "hard":
-                os.link(root + path[n["link"]], p)
+                os.link(root + path[n["link"]], p, follow_symlinks=False)       # the node itself, also when it is a symlink
             else:
                 raise RuntimeError("unknown kind %r" % k)
         # attributes: owner first (chown clears setuid/setgid), then mode, xattrs, times last; directories bottom-up
@@ -253,19 +268,45 @@ def cleanup(root):
 
 
 # ---------------------------------------------------------------------------------------------------- debugfs front end
-def debugfs_script(tree, conc, root):
-    """mkdir / write / symlink / mknod, each issued from the target directory (debugfs mknod does not split paths).
-    Hard links are not part of this front end (debugfs `link` does not maintain link counts)."""
+def _sockish(tree):
+    """ids of the names this front end cannot create: sockets (debugfs mknod has no socket type) and further names of sockets"""
+    by_id = {n["id"]: n for n in tree}
+    return {n["id"] for n in tree if (by_id[n["link"]] if n["kind"] == "hard" else n)["kind"] == "sock"}
+
+
+def debugfs_links(tree, conc):
+    """The hard-link part of the debugfs front end.  `ln` adds a name and nothing else (it neither grows a full directory nor
+    touches the link count -- both documented), so the user of debugfs runs `expand_dir` when ln reports
+    "No free space in the directory" and stores the count with `sif`.  Returns (lns, sifs):
+    lns = [{"dir", "src", "name"}] in script order, sifs = ["sif <first name> links_count <n>"] for every group with n > 1."""
     cpath = {c["id"]: c["path"] for c in conc}
+    skip = _sockish(tree)
+    lns, cnt = [], {}
+    for n in tree:
+        if n["kind"] != "hard" or n["id"] in skip:
+            continue
+        d, nm = os.path.split(cpath[n["id"]])
+        lns.append({"dir": d or "/", "src": cpath[n["link"]], "name": nm})
+        cnt[n["link"]] = cnt.get(n["link"], 1) + 1
+    return lns, ["sif %s links_count %d" % (cpath[i], c) for i, c in sorted(cnt.items())]
+
+
+def debugfs_script(tree, conc, root):
+    """mkdir / write / symlink / mknod / ln, each issued from the target directory (debugfs mknod does not split paths).
+    A "hard" node is `ln <first name of the group> <name>`; see debugfs_links for what follows the script."""
+    cpath = {c["id"]: c["path"] for c in conc}
+    skip = _sockish(tree)
     L = []
     for n in tree:
-        if n["kind"] == "hard":
-            continue
+        if n["id"] in skip:
+            continue                          # debugfs mknod has no socket type
         p = cpath[n["id"]]
         d, nm = os.path.split(p)
         L.append("cd %s" % (d or "/"))
         k = n["kind"]
-        if k == "dir":
+        if k == "hard":
+            L.append("ln %s %s" % (cpath[n["link"]], nm))
+        elif k == "dir":
             L.append("mkdir %s" % nm)
         elif k == "reg":
             L.append("write %s %s" % (root + p, nm))
@@ -276,8 +317,6 @@ def debugfs_script(tree, conc, root):
             L.append("mknod %s %s %d %d" % (nm, "c" if k == "chr" else "b", mj, mi))
         elif k == "fifo":
             L.append("mknod %s p" % nm)
-        elif k == "sock":
-            continue                          # debugfs mknod has no socket type
     return "\n".join(L) + "\n"
 
 
